@@ -25,7 +25,7 @@ ENUM = {
 }
 POOL = 12
 CHUNK = 4000
-RULE = ("enc: every (injective vocabulary of <= 3 of 6 tags over terms sharing a name or a label, tag list of <= 3 with "
+RULE = ("enc: every (injective vocabulary of <= 3 of 5 (quick) / 6 (thorough) tags over terms sharing a name or a label, tag list of <= 3 with "
         "repeats and outsiders, two quarter-score patterns) of the TLA+ enumeration, plus random vocabularies of <= 8 of 12 "
         "tags with lists of <= 8; pair: every ordered pair of objects of the eight hashable classes over two- to four-value "
         "field domains; non-trivial = enc cases with a non-empty vocabulary and list, pair cases whose objects compare equal "
